@@ -572,6 +572,12 @@ def rule_handler_stack_mutations(ctx, rep, rid: str) -> None:
                 # frame clean-up: the pop must be guarded by a comparison of the record's frame index with the call depth
                 g = [norm(t) for t, pol in guards_of(x, m.node)]
                 ok = any("len(self.call_stack)" in t and "[0]" in t for t in g)
+            if not ok and kind in ("del", "clear", "rebind"):
+                # emptying the whole stack when the interpreter is prepared for another run stands for construction
+                from .isolation import reinitialisers
+
+                whole = (kind == "clear") or (kind == "rebind" and isinstance(x.value, ast.List) and not x.value.elts) or (kind == "del" and all(isinstance(t, ast.Subscript) and isinstance(t.slice, ast.Slice) and t.slice.lower is None and t.slice.upper is None for t in x.targets))
+                ok = whole and id(m) in reinitialisers(ctx)
             if ok:
                 rep.ok(rid, key)
             else:
